@@ -303,6 +303,8 @@ Fixpoint deser_inits (h : heap) (tbl : table) (vis : list vinfo) (ts : list tpro
   | t :: r, c :: cr =>
     let k := tp_name t in
     if N.eqb k 0 then deser_inits h tbl vis r cr
+    (* a repeated initializer name: only the LAST tensor of the name is used (as a whole) *)
+    else if existsb (fun t' => N.eqb (tp_name t') k) r then deser_inits h tbl vis r cr
     else match lookup k tbl with
          | Some v =>
            match deser_inits (updv h v (with_const (Some c))) tbl vis r cr with
